@@ -76,6 +76,7 @@ pub struct ModelRun {
     pub out: String,
     pub chunks: Vec<Chunk>,
     pub usage_marks: Vec<(usize, Label)>,
+    pub cond_barriers: Vec<usize>,
     pub table: Table,
     pub err: Option<ExpErr>,
     pub stats: ModelStats,
@@ -116,6 +117,7 @@ pub fn run_model(case: &Case, flags: Flags) -> ModelRun {
         out: m.out,
         chunks: m.chunks,
         usage_marks: m.usage_marks,
+        cond_barriers: m.cond_barriers,
         table: m.table,
         err: r.err(),
     }
@@ -142,6 +144,26 @@ pub fn compare_tokens(expected: &str, actual: &str) -> Result<usize, String> {
         ));
     }
     Ok(n)
+}
+
+/// Tokens of `text` that straddle one of the `barriers` (positions at which a conditional directive was removed):
+/// two tokens of the source that the removal of the directive let run into one another.
+pub fn glued_tokens(text: &str, barriers: &[usize]) -> Vec<String> {
+    let toks = match lexer::lex(text) {
+        Ok(t) => t,
+        Err(_) => return Vec::new(),
+    };
+    let mut out = Vec::new();
+    for t in toks {
+        if matches!(t.kind, lexer::Kind::LineComment | lexer::Kind::BlockComment | lexer::Kind::Str) {
+            continue;
+        }
+        let (a, b) = (t.start, t.start + t.text.len());
+        if barriers.iter().any(|&x| a < x && x < b) {
+            out.push(t.text.to_string());
+        }
+    }
+    out
 }
 
 /// Peel Include wrappers.
